@@ -735,6 +735,9 @@ class SQLitePool(Pool):
             Pool.disconnect(pool)
     def drop(pool, con):
         if pool.is_shared_memory_db or pool.filename == ':memory:':
-            con.rollback()
+            # the connection of an in-memory database is never closed: give it back in its initial state
+            # (a ddl session switches the foreign key checks off, and not every way out of it passes through release())
+            try: con.rollback()
+            finally: con.execute('PRAGMA foreign_keys = true')
         else:
             Pool.drop(pool, con)
